@@ -8,6 +8,7 @@ import (
 	"reflect"
 	"strings"
 	"testing"
+	"time"
 
 	"github.com/elastic/go-seccomp-bpf/arch"
 	"github.com/elastic/go-seccomp-bpf/cmd/seccomp-profiler/disasm"
@@ -164,13 +165,34 @@ func drawListing(t *rapid.T) sitemodel.Listing {
 			l.Funcs[i+1].Items = append([]sitemodel.Item{bare}, l.Funcs[i+1].Items...)
 		}
 	}
+	// a function of thousands of lines (generated code, big switch statements) that ends with a number load, followed by a
+	// function that opens with a site without a load of its own: however long the earlier function was, nothing of it
+	// belongs to the later one. Lengths around the powers of two a bounded look-behind would use.
+	if len(l.Funcs) >= 2 && rapid.IntRange(0, ev.Scale(39, 19)).Draw(t, "longFunction") == 0 {
+		i := rapid.IntRange(0, len(l.Funcs)-2).Draw(t, "longAt")
+		sizes := []int{1022, 1024, 1026, 4094, 4096, 4098, 8186, 8188, 8190, 8191, 8192, 8193, 8194, 8196, 16382, 16384, 16386}
+		if ev.Tier() == "thorough" {
+			sizes = append(sizes, 32766, 32768, 32770, 65534, 65536, 65538, 131072)
+		}
+		n := sizes[rapid.IntRange(0, len(sizes)-1).Draw(t, "longLen")]
+		items := []sitemodel.Item{{Kind: sitemodel.Filler, Gap: n}}
+		items = append(items, l.Funcs[i].Items...)
+		items = append(items, sitemodel.Item{Kind: sitemodel.LoadOnly, Num: table[rapid.IntRange(0, len(table)-1).Draw(t, "longBait")], Hex: true})
+		l.Funcs[i].Items = items
+		if !sitemodel.IsWrapperFunc(l.Funcs[i+1].Name) && !l.Funcs[i+1].NoLead {
+			bare := sitemodel.Item{Kind: sitemodel.BareSite, Instr: triggers[rapid.IntRange(0, len(triggers)-1).Draw(t, "longTrigger")]}
+			l.Funcs[i+1].Items = append([]sitemodel.Item{bare}, l.Funcs[i+1].Items...)
+		}
+	}
 	return l
 }
 
 var hostileLines = []string{"TEXT", "TEXT ", "TEXTX", "TEXT\t", "SYSCALL", "  SYSCALL", "a SYSCALL", "a b SYSCALL", "INT $0x80", "x INT $0x80", "SYSENTER",
 	"CALL syscall.Syscall(SB)", "x CALL syscall.Syscall6(SB)", "XORL AX, AX", "  f.go:1\t0x1\t00\tXORL AX, AX\t", "MOVL $, AX", "MOVL $0x, AX", "MOVL $99999999999999999999, AX",
 	"MOVL $-1, AX", "MOVQ $0x3b, 0(SP)", "\x00\x00\x00", "\xff\xfe\xfd SYSCALL", "TEXT \xc3\x28", "", " ", "\t", "TEXT a", "TEXT main.main(SB) /x.go", "  f.go:2\t0x2\t0f05\tSYSCALL\t",
-	"  f.go:3\t0x3\tb8\tMOVL $0x3b, AX\t", "\r", "SYSCALL\r", "TEXT\r"}
+	"  f.go:3\t0x3\tb8\tMOVL $0x3b, AX\t", "\r", "SYSCALL\r", "TEXT\r",
+	"  f.go:4\t0x4\t48\tMOVQ main.MOVED(SB), CX\t", "  f.go:5\t0x5\te9\tJMP main.MOVMOV(SB)\t", "  f.go:6\t0x6\t48\tMOVQ $main.MOVABLE(SB), DX\t", "MOV MOV MOV", "MOVQ $MOVQ $1, AX, AX",
+	"SYSCALL SYSCALL", "CALL syscall.Syscall(SB) CALL syscall.Syscall(SB)", "TEXT TEXT TEXT", "XORL AX, AX XORL AX, AX", "INT $0x80 INT $0x80", "$$", "MOVL $$1, AX", "MOVL $1, AX, AX", "MOVL $1, , AX"}
 
 func drawC16(t *rapid.T) c16Case {
 	c := c16Case{Seed: rapid.Uint64().Draw(t, "seed")}
@@ -216,13 +238,40 @@ func drawC16(t *rapid.T) c16Case {
 // extract calls ExtractSyscalls. A panic is returned in pan; so is the other thing that must never happen whatever the
 // input: a result handed back together with an error ("returns an error, not a partial result").
 func extract(archName, path string) (res []disasm.Syscall, err error, pan any) {
-	defer func() {
-		if x := recover(); x != nil {
-			pan = fmt.Sprintf("panic: %v", x)
-		}
+	type outcome struct {
+		res []disasm.Syscall
+		err error
+		pan any
+	}
+	ch := make(chan outcome, 1)
+	go func() {
+		var o outcome
+		defer func() {
+			if x := recover(); x != nil {
+				o.pan = fmt.Sprintf("panic: %v", x)
+			}
+			ch <- o
+		}()
+		o.res, o.err = disasm.ExtractSyscalls(spec.ArchInfo(archName), path)
 	}()
-	res, err = disasm.ExtractSyscalls(spec.ArchInfo(archName), path)
-	if err != nil && len(res) > 0 {
+	// "terminates": a listing of this size is read in micro- to milliseconds (about 100 MB/s). The extraction gets 30 s plus
+	// a second per 500 KB, and when that has passed twice as much again, before it is said not to terminate.
+	limit := 30 * time.Second
+	if fi, serr := os.Stat(path); serr == nil && fi.Mode().IsRegular() {
+		limit += time.Duration(fi.Size()/500000) * time.Second
+	}
+	var o outcome
+	select {
+	case o = <-ch:
+	case <-time.After(limit):
+		select {
+		case o = <-ch:
+		case <-time.After(2 * limit):
+			return nil, nil, fmt.Sprintf("ExtractSyscalls did not return within %v (the text is read in milliseconds)", 3*limit)
+		}
+	}
+	res, err, pan = o.res, o.err, o.pan
+	if pan == nil && err != nil && len(res) > 0 {
 		pan = fmt.Sprintf("an error (%v) was returned together with a partial result of %d syscalls (%v ...)", err, len(res), keys(res[:1]))
 	}
 	return
@@ -386,6 +435,13 @@ func checkC16(raw json.RawMessage) (ev.Result, error) {
 			}
 			if sitemodel.IsWrapperFunc(f.Name) {
 				res.Classes = append(res.Classes, "trigger-inside-a-wrapper-function")
+			}
+			for _, it := range f.Items {
+				if it.Kind == sitemodel.Filler && it.Gap >= 8190 {
+					res.Classes = append(res.Classes, "function-of-more-than-8190-lines")
+				} else if it.Kind == sitemodel.Filler && it.Gap >= 1000 {
+					res.Classes = append(res.Classes, "function-of-more-than-1000-lines")
+				}
 			}
 		}
 		res.NonTrivial = len(c.Listing.Funcs) >= 2 && len(all) >= 1
